@@ -5,7 +5,7 @@ import sym
 
 CONFIGS_QUICK = ["F_def", "F_all"]  # every configuration whose cfg-gated code the property depends on
 CONFIGS_THOROUGH = ["F_def", "F_all"]
-TECHNIQUE = 'static analysis: result/resume-state table extraction from MIR paths, byte-class typestate of recovery scans, who-may-construct for HTML-only items'
+TECHNIQUE = 'static analysis: result/resume-state table extraction from MIR paths, byte-class typestate of recovery scans, who-may-construct for HTML-only items, quote table and blank predicate of the recovery scan, accessor sibling agreement'
 EXPLANATION = (
     "Result <-> resume-state table of IterState::next extracted path by path (returned item variant, documented error "
     "position operand, state written) against the AttrError documentation; HTML mode only adds acceptance (Attr::Unquoted / "
